@@ -95,7 +95,9 @@ structure PaxRec where
   valueLen : Nat
   deriving Repr, DecidableEq
 
-/-- failure codes of `read_pax_header`: 1 = malformed, 2 = "numeric overflow" (len beyond the record), 3 = handler -/
+/-- failure classes of `read_pax_header`, named after the diagnostic the C code prints (the harness reads the class off
+stderr): 1 = "Found a malformed PAX header", 2 = "Numeric overflow in PAX header" (len beyond the record), 3 = "Malformed
+decimal value in pax header", 4 = "malformed GNU pax sparse file record", 0 = no diagnostic (LIBARCHIVE.xattr base-64) -/
 inductive FrameRes
   | frame (buf : Bytes) (r : PaxRec) (next : Nat)
   | fail (code : Nat)
@@ -191,14 +193,14 @@ def sparseMapLoop (buf : Bytes) : Nat → Nat → List SparseEnt → R (List Spa
   | 0, _, _ => .spin
   | fuel + 1, i, acc =>
     match parseU 10 buf i none true 0 0 with
-    | .oob => .oob | .spin => .spin | .fail _ => .fail 3
+    | .oob => .oob | .spin => .spin | .fail _ => .fail 4
     | .ok (off, d1) =>
       match buf[i + d1]? with
       | none => .oob
       | some c =>
-        if c.toNat ≠ 44 then .fail 3                                   -- `line[diff] != ','`
+        if c.toNat ≠ 44 then .fail 4                                   -- `line[diff] != ','`
         else match parseU 10 buf (i + d1 + 1) none true 0 0 with
-          | .oob => .oob | .spin => .spin | .fail _ => .fail 3
+          | .oob => .oob | .spin => .spin | .fail _ => .fail 4
           | .ok (cnt, d2) =>
             let acc' := { offset := off, count := cnt } :: acc
             match buf[i + d1 + 1 + d2]? with
@@ -247,7 +249,7 @@ def paxApply (buf : Bytes) (r : PaxRec) (o : PaxOut) : R PaxOut :=
       -- in-place `base64_decode(value, value_len, value, &value_len)`, then `urldecode(key)`
       match base64Decode buf r.value r.valueLen r.valueLen with
       | .ok v => .ok { o with xattr := { key := urldecode (key.drop 17), value := v } :: o.xattr }
-      | .fail _ => .fail 3 | .oob => .oob | .spin => .spin
+      | .fail _ => .fail 0 /- `return -1` without a diagnostic -/ | .oob => .oob | .spin => .spin
     else if key = ([71, 78, 85, 46, 115, 112, 97, 114, 115, 101, 46, 109, 97, 112] : Bytes) /- "GNU.sparse.map" -/ then
       match sparseMapLoop buf (buf.length + 1) r.value [] with
       | .ok l => .ok { o with sparse := l, sparseOpen := false }
